@@ -76,8 +76,13 @@ var (
 	flagConcrete = flag.String("concrete", "", "replay vector json: run with all nondets fixed (translator validation)")
 )
 
+var trailLog *os.File
+
 func main() {
 	flag.Parse()
+	if f := os.Getenv("GOSYM_TRAILS"); f != "" {
+		trailLog, _ = os.Create(f)
+	}
 	debug.SetGCPercent(400)
 	t0 := time.Now()
 	cfg := &packages.Config{Mode: packages.LoadAllSyntax, Dir: *flagDir, Env: append(os.Environ(), "GOFLAGS=-mod=mod", "GOPROXY=off", "GOSUMDB=off", "GOTOOLCHAIN=local")}
@@ -405,6 +410,8 @@ func (w *Worker) runPathOnce(fn *ssa.Function, item WorkItem, retry bool) (bool,
 	w.absFloatText = false
 	w.loopBound = 0
 	w.absFloatArith = false
+	w.splitDiv = false
+	w.whereLog = w.whereLog[:0]
 	w.opaqueParseFloat = false
 	w.depth = 0
 	w.solver.lastErr = ""
@@ -499,6 +506,12 @@ func (w *Worker) runPathOnce(fn *ssa.Function, item WorkItem, retry bool) (bool,
 			st.ReachWitness++
 			if p.asserts > 0 && (len(p.taken) > 0 || p.symAsrt > 0) {
 				st.PathsNontrivial++
+			}
+		}
+		if trailLog != nil {
+			fmt.Fprintf(trailLog, "%s %s\n", outcome, trailString(p.taken))
+			for _, wl := range w.whereLog {
+				fmt.Fprintf(trailLog, "   @ %s\n", wl)
 			}
 		}
 		if len(st.Samples) < 5 {
